@@ -13,13 +13,14 @@ import vlib
 
 MODULES = ["Percival.Properties.C18"]
 NTABLES = 9
+LONGY = "--" + "y" * 298       # a registered long option of 300 characters (t8): lengths do not fit in a byte
 # mirror of harness/h_getopt.c / Model/GetoptStep.lean `tables` (only used to BUILD inputs; answers come from pmodel)
 HAS_MISSING = {0: True, 1: False, 2: True, 3: False, 4: False, 5: True, 6: False, 7: True, 8: False}
 NLINES = {0: 6, 1: 6, 2: 9, 3: 7, 4: 1, 5: 3, 6: 3, 7: 14, 8: 16}          # line offset of GETOPT_DEFAULT
 ARGOPTS = {0: ["-b", "--bar"], 1: ["-b", "--bar"], 2: ["-o", "--foobar", "--f"], 3: ["-x", "--x"], 4: [], 5: ["-b"],
            6: ["--bar", "-b"], 7: ["-b", "--bar", "--zed", "-q"], 8: ["-q", "-b", "--bar", "--zed"]}
 FLAGS = {0: ["-a", "--foo"], 1: ["-a", "--foo"], 2: ["-f", "-b", "--foo", "--fo"], 3: ["-=", "-y", "--y"], 4: [], 5: [], 6: [],
-         7: ["-a", "--foo", "-z"], 8: ["-a", "--foo", "-y", "-z", "--yy"]}
+         7: ["-a", "--foo", "-z"], 8: ["-a", "--foo", "-y", "-z", LONGY]}
 
 
 def hx(s):
@@ -40,7 +41,7 @@ ALPHABET = {
         "-", "--", "", "op"],
 }
 T78 = ["-a", "-b", "-ab", "-bx", "-z", "-q", "-zq", "-qz", "--foo", "--bar", "--bar=x", "--zed", "--zed=", "--zed=v",
-       "-y", "--yy", "-", "--", "", "op"]
+       "-y", LONGY, "-", "--", "", "op"]
 for _t in (4, 5, 6):
     ALPHABET[_t] = T01          # t4: every option unknown; t5/t6: -b (and --bar) known
 ALPHABET[7] = T78
@@ -51,7 +52,7 @@ EXTRA = ["-a-", "-a-b", "---", "--=", "--=x", "-ba", "-abab", "--foo=", "--foo==
 ARGV0 = ["p", "/usr/bin/p", "a/", "/", "", "-a", "--", "x/y/z"]
 PROBE = {0: ["-ab", "x", "--foo"], 1: ["-ab", "x", "--foo"], 2: ["-fo", "x", "--fo"], 3: ["-yx", "v", "--y"],
          4: ["-ab", "x", "--foo"], 5: ["-b", "x", "-bb"], 6: ["--bar", "x", "-b", "y"], 7: ["-aq", "x", "--zed=", "-z"],
-         8: ["-yq", "x", "--zed", "v", "--yy"]}
+         8: ["-yq", "x", "--zed", "v", LONGY]}
 CHUNK = 64
 
 
